@@ -30,10 +30,8 @@ RESOLVER_MODULES = ("dds._retrieve_objects", "dds.introspect", "dds._introspect_
 
 
 def composer(ctx: Ctx) -> Func:
-    f = ctx.prog.funcs.get("dds.introspect._build_return_sig")
-    if f is None:
-        raise AnchorError("role signature-composer (dds.introspect._build_return_sig) not found")
-    return f
+    from .roles import composer as _role_composer
+    return _role_composer(ctx)
 
 
 def sink_rule(ctx: Ctx, rule: str, kinds: Tuple[str, ...], what: str) -> int:
@@ -153,7 +151,11 @@ def exempt_rule(ctx: Ctx, rule: str) -> None:
     else:
         rep.ok(rule, f.qname, desc + f" ({n_sites} composer call sites)", f.loc(call))
     # which resolver outcomes build such dependencies: ExternalObject(path) constructed although the path is authorised
-    rec = prog.funcs.get("dds._retrieve_objects.ObjectRetrieval._retrieve_object_rec")
+    from .roles import resolver_rec as _resolver_rec
+    try:
+        rec = _resolver_rec(ctx)
+    except AnchorError:
+        rec = None
     if rec is None:
         return
     cfg = cfg_of(rec)
@@ -227,7 +229,7 @@ def process_reads(ctx: Ctx, rule: str, modules: Tuple[str, ...]) -> int:
 
             def is_sink(g, call, pos, kw):
                 d = prog.dotted(g, call.func) or ""
-                if d in sigflow.SINK_FUNCS:
+                if d in sigflow.SINK_FUNCS or d in sigflow._digest_names(ctx):
                     return f"{d.split('.')[-1]} at {g.loc(call)}"
                 return None
 
